@@ -41,7 +41,9 @@ func (g *Gen) ret(x *ssa.Return, st *State) {
 	if g.c == nil {
 		return
 	}
-	vars := map[string]Val{}
+	// postconditions may mention locals that are in scope at the return (ghost-free
+	// way of naming intermediate values); parameters and results take precedence
+	vars := g.callScope(map[string]Val{})
 	for k, v := range g.params {
 		vars[k] = v
 	}
@@ -59,7 +61,7 @@ func (g *Gen) ret(x *ssa.Return, st *State) {
 		g.assume(st, t)
 	}
 	for j, e := range g.c.Ensures {
-		g.assert(st, "ensures", fmt.Sprint(j+1), env.tr(e).S, g.c.EnsSrc[j], x.Pos())
+		g.assertExpr(st, env, "ensures", fmt.Sprint(j+1), e, g.c.EnsSrc[j], x.Pos())
 	}
 	g.frameObls(st, x.Pos())
 }
@@ -114,6 +116,18 @@ func calleeName(cc *ssa.CallCommon) string {
 	case *ssa.Function:
 		if f.Pkg != nil && f.Signature.Recv() == nil {
 			return f.Pkg.Pkg.Name() + "." + f.Name()
+		}
+		if recv := f.Signature.Recv(); recv != nil {
+			// methods: (*pkg.T).m
+			t := recv.Type()
+			star := ""
+			if p, ok := t.(*types.Pointer); ok {
+				t = p.Elem()
+				star = "*"
+			}
+			if nt, ok := t.(*types.Named); ok && nt.Obj().Pkg() != nil {
+				return "(" + star + nt.Obj().Pkg().Name() + "." + nt.Obj().Name() + ")." + f.Name()
+			}
 		}
 		return fnShort(f)
 	case *ssa.MakeClosure:
@@ -189,9 +203,10 @@ func (g *Gen) call(x ssa.Value, cc *ssa.CallCommon, st *State) {
 	if g.c != nil {
 		for _, cs := range g.c.Calls {
 			if cs.Callee == cname && (cs.K == k || cs.K == 0) {
+				cs.Matched = true
 				env := g.env(st, g.callScope(vars))
 				for j, r := range cs.Req {
-					g.assert(st, "callsite", fmt.Sprintf("%s#%d", cname, k), env.tr(r).S, cs.ReqSrc[j], pos)
+					g.assertExpr(st, env, "callsite", fmt.Sprintf("%s#%d", cname, k), r, cs.ReqSrc[j], pos)
 				}
 			}
 		}
@@ -252,6 +267,18 @@ func (g *Gen) call(x ssa.Value, cc *ssa.CallCommon, st *State) {
 	for _, e := range ct.Ensures {
 		g.assume(st, post.tr(e).S)
 	}
+	for gname, rname := range ct.Bind {
+		if gv, ok := g.params[gname]; ok {
+			if rv, ok := vars[rname]; ok {
+				for _, li := range g.loops {
+					if li.blocks[g.curBlock] {
+						g.unsup("bind on a call inside a loop")
+					}
+				}
+				g.assume(st, eq(gv.S, rv.S))
+			}
+		}
+	}
 	// caller-side hints after the call
 	if g.c != nil {
 		for _, cs := range g.c.Calls {
@@ -281,6 +308,14 @@ func (g *Gen) callScope(vars map[string]Val) map[string]Val {
 	for k, v := range g.params {
 		if _, ok := out[k]; !ok {
 			out[k] = v
+		}
+	}
+	// the caller's own names stay reachable as my_<name> when a callee parameter shadows them
+	for k, v := range out {
+		if !strings.HasPrefix(k, "my_") {
+			if _, ok := out["my_"+k]; !ok {
+				defer func(k string, v Val) { out["my_"+k] = v }(k, v)
+			}
 		}
 	}
 	for k, v := range vars {
